@@ -61,8 +61,14 @@ pub fn seeds_for(width: usize) -> Vec<Vec<MapOp>> {
 }
 
 fn seeded(tier: Tier, full: bool, depth: u32) -> Box<dyn Config> {
+    seeded_plan(Plan::Zero, tier, full, depth)
+}
+
+/// The same seeds under another plan (MAX: every probe window crosses the
+/// mirrored tail and wraps around the end of the control bytes).
+fn seeded_plan(plan: Plan, tier: Tier, full: bool, depth: u32) -> Box<dyn Config> {
     let w = super::width();
-    let mut c = MapCfg::new(Plan::Zero, if w == 16 { 30 } else { 16 });
+    let mut c = MapCfg::new(plan, if w == 16 { 30 } else { 16 });
     c.max_buckets = if w == 16 { 64 } else { 32 };
     if !full {
         c.alphabet = Alphabet::core();
@@ -94,7 +100,10 @@ pub fn configs(tier: Tier) -> Vec<Box<dyn Config>> {
         v.push(closed(Plan::Adv(0), 4, tier));
         v.push(seeded(tier, true, 2));
         v.push(seeded(tier, false, 3));
+        v.push(seeded_plan(Plan::Max, tier, true, 1));
+        v.push(seeded_plan(Plan::Max, tier, false, 2));
         if !sse2 {
+            v.push(closed_core(Plan::Max, 12, tier, false));
             v.push(closed_core(Plan::Zero, 12, tier, true));
         }
     } else {
@@ -112,6 +121,9 @@ pub fn configs(tier: Tier) -> Vec<Box<dyn Config>> {
         }
         v.push(seeded(tier, true, 2));
         v.push(seeded(tier, false, 4));
+        v.push(seeded_plan(Plan::Max, tier, true, 2));
+        v.push(seeded_plan(Plan::Max, tier, false, 4));
+        v.push(seeded_plan(Plan::Cluster(2), tier, false, 3));
     }
     v
 }
